@@ -16,7 +16,7 @@ from vf.engines import sx
 from vf.seams import dbapi
 
 LEVEL = 'model_checking'
-ENDS = ('end', 'raise', 'rollback+end')
+ENDS = ('end', 'raise', 'rollback+end', 'end+commit-fails')
 
 def stale_ops(env, labels):
     ops = []
@@ -88,10 +88,11 @@ def scenario(env, sub, name, fixture, hist, preread, end, strict, ops, presigs):
             o = x.apply(('view_noflush',))
             if o[0] != 'ok': return
             view = o[1]
-        else:
+        elif preread is False:
             o = x.apply(('resolve', tuple(l for root in env.root_entities for l in env.labels_of(root, (1, 2, 3))
                                           if True)))
             x.skipped = False
+        # preread == 'none': only the objects the history itself produced (the session may never touch the database)
         objs = dict(x.refs)
         if not objs: return
         status = dict((l, o_._status_) for l, o_ in objs.items())
@@ -101,6 +102,16 @@ def scenario(env, sub, name, fixture, hist, preread, end, strict, ops, presigs):
         s, x.sess = x.sess, None
         try:
             if end == 'raise': s.__exit__(ZeroDivisionError, ZeroDivisionError('vf'), None)
+            elif end == 'end+commit-fails':
+                import sqlite3
+                def handler(kind, sql, args, con):
+                    if kind == 'commit': raise sqlite3.OperationalError('vf: injected commit failure')
+                dbapi.ENV.handler = handler
+                try:
+                    try: s.__exit__(None, None, None)
+                    except Exception: pass
+                    else: return                      # nothing to commit: same as a plain end
+                finally: dbapi.ENV.handler = None
             else: s.__exit__(None, None, None)
         except Exception:
             return                                    # the commit itself failed: not this property
@@ -136,7 +147,7 @@ def scenario(env, sub, name, fixture, hist, preread, end, strict, ops, presigs):
                         if strict: pass         # "unless the session was strict": reads need not work
                         elif op[3] == 'pickle': pass   # pickling problems (reference cycles) are judged in C31
                         elif not r[2]: bad = 'read-raises-%s' % r[1]
-                        elif preread and not strict and r[1] == 'DatabaseSessionIsOver' and op[3] in ('get', 'iter', 'len', 'in') \
+                        elif preread is True and not strict and r[1] == 'DatabaseSessionIsOver' and op[3] in ('get', 'iter', 'len', 'in') \
                                 and status.get(op[1]) in ('loaded', 'updated', 'modified') and not inside_new:
                             bad = 'loaded-value-not-readable'
                     elif view is not None and op[3] in ('get', 'iter') and view.get(op[1]) is not None \
@@ -178,7 +189,7 @@ def worker(args):
     n = 0
     for hist in hists:
         if sx.latent_conflict(fixture, hist): continue
-        for preread in (True, False):
+        for preread in (True, False, 'none'):
             for end in ENDS:
                 for strict in (False, True):
                     scenario(env, sub, name, fixture, hist, preread, end, strict, ops, presigs); n += 1
